@@ -65,36 +65,50 @@ class CondModel:
     def active(self):
         return all(f[2] for f in self.frames)
 
-    def value(self, term):
-        if isinstance(term, int):
-            return term
-        if term in self.symbols and self.symbols[term] not in (None, ''):
-            return int(self.symbols[term])
-        raise KeyError(term)
+    def expand(self, text, stack=()):
+        """lazy, textual, whole-word expansion of symbols at the moment of evaluation"""
+        import re
+
+        def repl(m):
+            w = m.group(0)
+            if w in self.symbols:
+                if w in stack or len(stack) > 8 or self.symbols[w] in (None, ''):
+                    raise KeyError(w)
+                return self.expand(self.symbols[w], stack + (w,))
+            raise KeyError(w)
+        return re.sub(r'[A-Za-z_]\w*', repl, str(text))
+
+    def num(self, text):
+        import re
+        t = self.expand(text)
+        if not re.fullmatch(r'\d+( ?[+-] ?\d+)*', t.strip()):
+            raise KeyError(t)
+        return int(eval(t, {'__builtins__': {}}, {}))     # noqa: S307 - digits, + and - only
+
+    def sides(self, cond):
+        t = [str(x) for x in cond['terms']]
+        if cond['form'] == 'cmp':
+            return t[0], cond['op'], t[1]
+        if cond['form'] == 'bare':
+            return t[0], '!=', '0'
+        if cond['form'] == 'bare_minus':
+            return f'{t[0]} - {t[1]}', '!=', '0'
+        return f'{t[0]} + {t[1]}', cond['op'], t[2]
 
     def cond_ok(self, cond):
-        """all symbols used are defined with numeric values right now"""
+        """every symbol used expands to a number right now"""
         try:
-            for t in cond['terms']:
-                self.value(t)
+            a, _, b = self.sides(cond)
+            self.num(a)
+            self.num(b)
             return True
-        except (KeyError, ValueError):
+        except (KeyError, ValueError, SyntaxError):
             return False
 
     def eval_cond(self, cond):
-        t = cond['terms']
-        if cond['form'] == 'cmp':
-            a, b = self.value(t[0]), self.value(t[1])
-            return {'==': a == b, '!=': a != b, '<': a < b, '<=': a <= b, '>': a > b, '>=': a >= b}[cond['op']]
-        if cond['form'] == 'bare':
-            return self.value(t[0]) != 0
-        if cond['form'] == 'bare_minus':
-            return (self.value(t[0]) - self.value(t[1])) != 0
-        if cond['form'] == 'cmp_sum':
-            return {'==': lambda a, b: a == b, '!=': lambda a, b: a != b, '<': lambda a, b: a < b,
-                    '<=': lambda a, b: a <= b, '>': lambda a, b: a > b, '>=': lambda a, b: a >= b}[cond['op']](
-                self.value(t[0]) + self.value(t[1]), self.value(t[2]))
-        raise ValueError(cond)
+        a, op, b = self.sides(cond)
+        a, b = self.num(a), self.num(b)
+        return {'==': a == b, '!=': a != b, '<': a < b, '<=': a <= b, '>': a > b, '>=': a >= b}[op]
 
     @staticmethod
     def cond_text(cond):
@@ -125,7 +139,7 @@ class CondModel:
             sel = self.eval_cond(op['cond']) if act else False
             if act:
                 for t in op['cond']['terms']:
-                    if t in self.src:
+                    if isinstance(t, str) and t in self.src:
                         self.probes['condition_consulted_' + self.src[t]] = self.probes.get(
                             'condition_consulted_' + self.src[t], 0) + 1
             self.frames.append([act, sel, sel, 'if', False])
@@ -166,6 +180,19 @@ class CondModel:
         if k == 'define':
             if op['name'] in self.symbols:
                 return None
+            if isinstance(op['value'], str):
+                # cyclic definitions are C09's business (a line that uses one is rejected wherever it stands)
+                import re
+                seen, todo = set(), re.findall(r'[A-Za-z_]\w*', op['value'])
+                while todo:
+                    w = todo.pop()
+                    if w == op['name']:
+                        return None
+                    if w in seen:
+                        continue
+                    seen.add(w)
+                    if self.symbols.get(w):
+                        todo += re.findall(r'[A-Za-z_]\w*', str(self.symbols[w]))
             line = f'#define {op["name"]}' + (f' {op["value"]}' if op['value'] is not None else '')
             if act:
                 self.symbols[op['name']] = None if op['value'] is None else str(op['value'])
@@ -179,6 +206,23 @@ class CondModel:
             if act:
                 self.emit(op['k'])
             return 'keep', [f'  .byte {op["k"]}']
+        if k == 'sym_use':
+            # an ordinary line written with a symbol: substituted (lazily) when the line is reached
+            line = f'  .byte {op["name"]}'
+            if not act:
+                self.probes['symbol_used_in_unselected_line'] = self.probes.get('symbol_used_in_unselected_line', 0) + 1
+                return 'keep', [line]
+            if op['name'] not in self.symbols:
+                return None
+            try:
+                v = self.num(op['name'])
+            except (KeyError, ValueError, SyntaxError):
+                return None
+            if not 0 <= v <= 255:
+                return None
+            self.emit(v)
+            self.probes['symbol_used_in_selected_line'] = self.probes.get('symbol_used_in_selected_line', 0) + 1
+            return 'keep', [line]
         if k == 'const':
             if op['name'] in self.consts:
                 return None
@@ -478,9 +522,59 @@ def make_machine(stats, box):
         def endif(self):
             self.do({'op': 'endif'})
 
-        @rule(name=sym, value=st.one_of(st.none(), small))
+        @rule(name=sym, value=st.one_of(st.none(), small, small, st.tuples(sym, small).map(lambda t: f'{t[0]}+{t[1]}'),
+                                        sym))
         def define(self, name, value):
             self.do({'op': 'define', 'name': name, 'value': value})
+
+        @rule(name=sym)
+        def sym_use(self, name):
+            self.do({'op': 'sym_use', 'name': name})
+
+        @rule(name=sym, neg=st.booleans(), v=small, tail=st.sampled_from(['else', 'endif', 'nested']))
+        def idiom_define_flips_own_condition(self, name, neg, v, tail):
+            """#ifndef S / #define S v / X / #else / Y / #endif  (and the #ifdef ... #else #define variant)"""
+            if self.model is None or name in self.model.symbols or len(self.model.frames) >= 3:
+                return
+            self.do({'op': 'ifdef', 'name': name, 'neg': neg})
+            if not neg:
+                self.marker_()
+                self.do({'op': 'else'})
+            self.do({'op': 'define', 'name': name, 'value': v})
+            self.marker_()
+            if tail == 'nested':
+                self.do({'op': 'ifdef', 'name': name, 'neg': False})
+                self.marker_()
+                self.do({'op': 'endif'})
+            if neg and tail != 'endif':
+                self.do({'op': 'else'})
+                self.marker_()
+            self.do({'op': 'endif'})
+            self.do({'op': 'ifdef', 'name': name, 'neg': False})
+            self.marker_()
+            self.do({'op': 'endif'})
+
+        @rule(a=sym, b=sym, v=small)
+        def idiom_late_definition(self, a, b, v):
+            """#define A B+1 while B is undefined; A mentioned in excluded code; #define B v; #if A == v+1"""
+            m = self.model
+            if m is None or a == b or a in m.symbols or b in m.symbols or len(m.frames) >= 3:
+                return
+            self.do({'op': 'define', 'name': a, 'value': f'{b}+1'})
+            self.do({'op': 'if', 'cond': {'form': 'cmp', 'terms': [0, 1], 'op': '=='}})
+            self.do({'op': 'sym_use', 'name': a})
+            self.do({'op': 'endif'})
+            self.do({'op': 'define', 'name': b, 'value': v})
+            self.do({'op': 'if', 'cond': {'form': 'cmp', 'terms': [a, v + 1], 'op': '=='}})
+            self.marker_()
+            self.do({'op': 'else'})
+            self.marker_()
+            self.do({'op': 'endif'})
+            self.do({'op': 'sym_use', 'name': a})
+
+        def marker_(self):
+            self.marker += 1
+            self.do({'op': 'marker', 'k': 1 + (self.marker * 7) % 200})
 
         @rule()
         def marker(self):
